@@ -1087,6 +1087,18 @@ def emit_rust(consts_list, structs, to_str, sizes):
     return "\n".join(L) + "\n"
 
 
+def crate_aliases(repo):
+    aliases = {}
+    for f in sorted(os.listdir(os.path.join(repo, "src"))):
+        if f.endswith(".rs"):
+            for a, b in re.findall(r"(?:pub(?:\([^)]*\))?\s+)?type\s+(\w+)\s*=\s*([^;<>]+);", read_src(repo, f)):
+                aliases[a] = b.strip()
+    # resolve chains
+    for _ in range(4):
+        aliases = {a: aliases.get(b, b) for a, b in aliases.items()}
+    return aliases
+
+
 def main():
     ap = argparse.ArgumentParser()
     ap.add_argument("--repo", default="/repo")
@@ -1116,6 +1128,9 @@ def main():
         except TranslateError as e:
             to_str = fallback("to_str", None, e)
         feats = extract_features(args.repo)
+        import accessors as accmod
+        accs = accmod.translate_accessors(lambda f: read_src(args.repo, f), consts, crate_aliases(args.repo),
+                                          None if args.write_baseline else fallback)
     except TranslateError as e:
         print("TRANSLATE-ERROR: %s" % e)
         sys.exit(2)
@@ -1123,7 +1138,8 @@ def main():
         path = os.path.join(os.path.dirname(os.path.abspath(__file__)), "baseline.txt")
         open(path, "w").write(repr({"progs": progs, "sizes": sizes, "tail": (tail, tail_sizes),
                                     "cstructs": structs, "to_str": to_str,
-                                    "consts": {n: (ty, v) for n, ty, v, _ in consts_list}}))
+                                    "consts": {n: (ty, v) for n, ty, v, _ in consts_list},
+                                    "accessors": {"%s.%s" % (a["type"], a["fn"]): a for a in accs}}))
         print("baseline written to", path)
     changed = []
     for fname, content in [
@@ -1132,6 +1148,7 @@ def main():
         ("CStructs.lean", emit_cstructs(structs, consts)),
         ("ToStr.lean", emit_to_str(to_str)),
         ("Features.lean", emit_features(feats)),
+        ("Accessors.lean", accmod.emit_accessors(accs)),
     ]:
         if write_if_changed(os.path.join(args.out, fname), content):
             changed.append(fname)
@@ -1149,6 +1166,7 @@ def main():
         "to_str": to_str,
         "features": {"features": feats["features"], "dependencies": feats["dependencies"],
                      "usages": [{"file": u["file"], "kind": u["kind"], "line": u["line"], "gates": repr(u["gates"])} for u in feats["usages"]]},
+        "accessors": [{"type": a["type"], "fn": a["fn"], "params": [list(p) for p in a["params"]], "rty": a["rty"], "body": a["body"]} for a in accs],
         "changed": changed,
         "fallbacks": FALLBACKS,
     }
@@ -1156,8 +1174,8 @@ def main():
         write_if_changed(args.json, json.dumps(dump, indent=1, sort_keys=True))
     if args.rust:
         write_if_changed(args.rust, emit_rust(consts_list, structs, to_str, sizes))
-    print("translated: %d consts, %d parse programs, %d C structs, %d to_str functions; rewrote %s"
-          % (len(consts_list), 2 * (len(progs) + 1), len(structs), len(to_str), changed or "nothing"))
+    print("translated: %d consts, %d parse programs, %d C structs, %d to_str functions, %d accessors; rewrote %s"
+          % (len(consts_list), 2 * (len(progs) + 1), len(structs), len(to_str), len(accs), changed or "nothing"))
     for fb in FALLBACKS:
         print("TRANSLATE-FALLBACK: %s not translated (%s); its model is the pinned tree's translation, tied by the correspondence"
               % (fb["component"], fb["reason"]))
